@@ -458,11 +458,84 @@ func TestC04(t *testing.T) {
 			r.NonTrivial(mustJSON(c), c)
 		}
 		verdict(t, "C04", "random", c, f)
+		c04Sweep(t, r, c.Graph.Docs[c.Graph.Root])
 	})
+}
+
+// The dangling-pointer sweep: every list member of the root document (as `items`, `allOf`, `parameters`,
+// `enum`, `required`, ... - the members whose typed lookups parse index tokens themselves) is pointed at with
+// index-like tokens that designate nothing. Expanding a schema that is such a `$ref` must end in an error
+// (or, for C04's purpose, in anything but a crash), against the typed root and against the generic one.
+type c04SweepCase struct {
+	Doc string `json:"doc"`
+	Ref string `json:"ref"`
+}
+
+func oracleC04Sweep(c c04SweepCase) *vstat.Failure {
+	f := &vstat.Failure{}
+	for _, typed := range []bool{true, false} {
+		var root any
+		if typed {
+			sw := &spec.Swagger{}
+			if json.Unmarshal([]byte(c.Doc), sw) != nil {
+				return f
+			}
+			root = sw
+		} else {
+			var m map[string]any
+			if json.Unmarshal([]byte(c.Doc), &m) != nil {
+				return f
+			}
+			root = m
+		}
+		what := "ExpandSchema(typed root)"
+		if !typed {
+			what = "ExpandSchema(generic root)"
+		}
+		guard(f, what, func() {
+			sch := spec.RefSchema(c.Ref)
+			_ = spec.ExpandSchema(sch, root, nil)
+		})
+		guard(f, strings.Replace(what, "ExpandSchema", "ResolveRef", 1), func() {
+			if r, err := spec.NewRef(c.Ref); err == nil {
+				_, _ = spec.ResolveRef(root, &r)
+			}
+		})
+	}
+	return f
+}
+
+func c04Sweep(t *rapid.T, r *vstat.Recorder, doc string) {
+	var v any
+	if json.Unmarshal([]byte(doc), &v) != nil {
+		return
+	}
+	lists := gen.ListMembers(v, "", 8, nil)
+	if len(lists) == 0 {
+		return
+	}
+	// at most 24 pointers per case, spread over the document
+	start, stride := gen.Uniform(t, "sweep start", len(lists)), 1
+	if len(lists) > 24 {
+		stride = len(lists) / 24
+	}
+	for n, i := 0, start; n < 24 && n < len(lists); n, i = n+1, (i+stride)%len(lists) {
+		c := c04SweepCase{Doc: doc, Ref: gen.FragmentOf(lists[i] + gen.OddIndexes[(n+start)%len(gen.OddIndexes)])}
+		f := oracleC04Sweep(c)
+		r.Count("dangling-sweep lookups", 1)
+		verdict(t, "C04", "dangling-sweep", c, f)
+	}
 }
 
 func TestReplayC04(t *testing.T) {
 	runReplays(t, "C04", func(variant string, raw json.RawMessage) *vstat.Failure {
+		if variant == "dangling-sweep" {
+			var c c04SweepCase
+			if err := json.Unmarshal(raw, &c); err != nil {
+				return &vstat.Failure{Atoms: []vstat.Atom{{Kind: "HARNESS", Detail: err.Error()}}}
+			}
+			return oracleC04Sweep(c)
+		}
 		var c c04Case
 		if err := json.Unmarshal(raw, &c); err != nil {
 			return &vstat.Failure{Atoms: []vstat.Atom{{Kind: "HARNESS", Detail: err.Error()}}}
